@@ -50,6 +50,7 @@ type Task struct {
 	Auto   bool // registered itself (engine background goroutine)
 	Daemon bool // the run does not wait for it
 
+	goid    uint64
 	wake    chan struct{}
 	state   TaskState
 	cond    func() bool
@@ -87,6 +88,7 @@ type Config struct {
 	PCTDepth    int
 	MaxSteps    int
 	MaxSimTime  time.Duration
+	StallAfter  time.Duration // simulated time without workload progress after which the run is declared stalled
 	TimePassPct int           // percent of steps at which the scheduler lets time pass although tasks are runnable
 	TimeJump    time.Duration // maximum jump of such a step
 	Schedule    []int         // recorded task ids (replay); consumed first
@@ -106,6 +108,7 @@ type Sim struct {
 	rootGoid uint64
 
 	schedRNG *rand.Rand
+	timeRNG  *rand.Rand
 	mapRNG   *rand.Rand
 	diskRNG  *rand.Rand
 
@@ -118,6 +121,8 @@ type Sim struct {
 	pctPoints map[int]bool
 	drain     bool
 	start     time.Time
+	lastProg  int
+	lastProgAt time.Time
 
 	// outcome
 	Deadlock     string
@@ -133,8 +138,9 @@ type Sim struct {
 
 	// OnStep, if set, is called by the scheduler (root goroutine) after
 	// quiescence and before each decision. It must not call instrumented code
-	// that can block.
-	OnStep func(s *Sim)
+	// that can block. If it returns true it has woken goroutines (cancelled a
+	// context, ...) and the scheduler waits for quiescence again.
+	OnStep func(s *Sim) bool
 }
 
 var active atomic.Pointer[Sim]
@@ -151,6 +157,9 @@ func New(cfg Config) *Sim {
 	if cfg.MaxSimTime == 0 {
 		cfg.MaxSimTime = 6 * time.Hour
 	}
+	if cfg.StallAfter == 0 {
+		cfg.StallAfter = 150 * time.Second
+	}
 	if cfg.TimeJump == 0 {
 		cfg.TimeJump = 2 * time.Second
 	}
@@ -161,6 +170,7 @@ func New(cfg Config) *Sim {
 		notify:    make(chan struct{}, 1),
 		rootGoid:  goid(),
 		schedRNG:  rand.New(rand.NewPCG(cfg.Seed, 0x5c4ed)),
+		timeRNG:   rand.New(rand.NewPCG(cfg.Seed, 0x71e)),
 		mapRNG:    rand.New(rand.NewPCG(cfg.Seed, 0x3a9)),
 		diskRNG:   rand.New(rand.NewPCG(cfg.Seed, 0xd15c)),
 		prio:      map[int]int{},
@@ -206,6 +216,32 @@ func (s *Sim) WallOffset() time.Duration { return time.Duration(s.wallOffset.Loa
 
 // SetWallOffset sets the wall clock offset (clock steps forward/backward).
 func (s *Sim) SetWallOffset(d time.Duration) { s.wallOffset.Store(int64(d)) }
+
+// progress is a counter that changes whenever a workload task completes an
+// operation, starts or finishes.
+func (s *Sim) progress() int {
+	s.mu.Lock()
+	defer s.mu.Unlock()
+	p := 0
+	for _, t := range s.tasks {
+		if t.Daemon {
+			continue
+		}
+		p += t.Progress + 1
+		if t.state == Done {
+			p++
+		}
+	}
+	return p
+}
+
+// ResetStall restarts the stall detector (a new phase of the run begins).
+func (s *Sim) ResetStall() { s.lastProgAt = time.Time{} }
+
+// SetTimePass changes the percentage of steps at which the scheduler lets
+// simulated time pass although tasks are runnable (0: the clock only moves
+// when nothing can run).
+func (s *Sim) SetTimePass(pct int) { s.cfg.TimePassPct = pct }
 
 // Tasks returns all tasks.
 func (s *Sim) Tasks() []*Task {
@@ -301,12 +337,60 @@ func (s *Sim) Current() *Task {
 	defer s.mu.Unlock()
 	t := s.byGoid[g]
 	if t == nil {
-		t = &Task{ID: s.nextAuto, Name: "auto" + strconv.Itoa(s.nextAuto), Auto: true, Daemon: true, wake: make(chan struct{}, 1), state: Running}
+		t = &Task{ID: s.nextAuto, Name: "auto" + strconv.Itoa(s.nextAuto), Auto: true, Daemon: true, wake: make(chan struct{}, 1), state: Running, goid: g}
 		s.nextAuto++
 		s.byGoid[g] = t
 		s.tasks = append(s.tasks, t)
 	}
 	return t
+}
+
+// ReapAuto marks automatic tasks whose goroutine has exited as Done and
+// returns the ones that are still alive. It must be called while everything
+// else is quiescent (from the scheduler, or from a task right after it was
+// scheduled).
+func (s *Sim) ReapAuto() (alive []*Task) {
+	s.mu.Lock()
+	var autos []*Task
+	for _, t := range s.tasks {
+		if t.Auto && t.state != Done {
+			autos = append(autos, t)
+		}
+	}
+	s.mu.Unlock()
+	if len(autos) == 0 {
+		return nil
+	}
+	buf := make([]byte, 1<<16)
+	for {
+		n := runtime.Stack(buf, true)
+		if n < len(buf) {
+			buf = buf[:n]
+			break
+		}
+		buf = make([]byte, 2*len(buf))
+	}
+	live := map[uint64]bool{}
+	for _, line := range strings.Split(string(buf), "\n") {
+		if strings.HasPrefix(line, "goroutine ") {
+			rest := line[len("goroutine "):]
+			if i := strings.IndexByte(rest, ' '); i > 0 {
+				if id, err := strconv.ParseUint(rest[:i], 10, 64); err == nil {
+					live[id] = true
+				}
+			}
+		}
+	}
+	s.mu.Lock()
+	defer s.mu.Unlock()
+	for _, t := range autos {
+		if live[t.goid] {
+			alive = append(alive, t)
+		} else {
+			t.state = Done
+		}
+	}
+	return alive
 }
 
 // Yield is a plain scheduling point.
@@ -407,10 +491,11 @@ func (s *Sim) pending() (runnable, parkedBlocked, external []*Task, workloadLeft
 // Run is the scheduler loop. It returns when every non-daemon task is done or
 // a budget is exhausted.
 func (s *Sim) Run() {
+	s.lastProgAt = time.Time{}
 	for {
 		synctest.Wait()
-		if s.OnStep != nil {
-			s.OnStep(s)
+		if s.OnStep != nil && s.OnStep(s) {
+			continue
 		}
 		runnable, blocked, external, left := s.pending()
 		if !left {
@@ -421,6 +506,12 @@ func (s *Sim) Run() {
 			return
 		}
 		if time.Since(s.start) > s.cfg.MaxSimTime {
+			s.TimeOut = true
+			return
+		}
+		if p := s.progress(); p != s.lastProg || s.lastProgAt.IsZero() {
+			s.lastProg, s.lastProgAt = p, time.Now()
+		} else if time.Since(s.lastProgAt) > s.cfg.StallAfter {
 			s.TimeOut = true
 			return
 		}
@@ -455,8 +546,8 @@ func (s *Sim) Run() {
 			}
 			continue
 		}
-		if s.cfg.TimePassPct > 0 && len(external) > 0 && s.schedRNG.IntN(100) < s.cfg.TimePassPct {
-			jump := time.Duration(s.schedRNG.Int64N(int64(s.cfg.TimeJump))) + 1
+		if s.cfg.TimePassPct > 0 && len(external) > 0 && s.timeRNG.IntN(100) < s.cfg.TimePassPct {
+			jump := time.Duration(s.timeRNG.Int64N(int64(s.cfg.TimeJump))) + 1
 			s.TimePassed++
 			// drain stale pokes first so that only a timer wake-up or our own timer ends the wait
 			select {
@@ -654,6 +745,21 @@ func (s *Sim) Drain(final func()) bool {
 		if run != nil {
 			run.wake <- struct{}{}
 			continue
+		}
+		if alive == ext {
+			// only externally blocked tasks are left: automatic ones may simply have exited
+			s.ReapAuto()
+			s.mu.Lock()
+			left := 0
+			for _, t := range s.tasks {
+				if t.state != Done {
+					left++
+				}
+			}
+			s.mu.Unlock()
+			if left == 0 {
+				return true
+			}
 		}
 		if time.Now().After(deadline) {
 			return false
